@@ -105,6 +105,8 @@ def plan(tier, seed):
         jobs.append(("prog", n_sub, ch, nchunk, seed, 10 ** 6))
     for k in range(4):
         jobs.append(("big", k, seed, 50000))
+    for P in (3, 4, 6):
+        jobs.append(("deep", P, seed, 40000))
     for part in (("asm", 0), ("asm", 1), ("hand", 0), ("hand", 1)):
         jobs.append(("cliflow", seed, part, 10 ** 7))
     jobs.sort(key=lambda j: -j[-1])
@@ -113,7 +115,73 @@ def plan(tier, seed):
 
 def run_job(job):
     env.quiet()
-    return {"fn": job_fn, "prog": job_prog, "big": job_big, "cliflow": job_cliflow}[job[0]](job)
+    return {"fn": job_fn, "prog": job_prog, "big": job_big, "cliflow": job_cliflow, "deep": job_deep}[job[0]](job)
+
+
+def job_deep(job):
+    """deep samples: log-joints of the genotypes differ by thousands of nats, so every running sum has to be carried in log space relative to its maximum;
+    both paths must still give the normalised posterior (GPM <= SPM <= 1, AFP sums to one)"""
+    from mchap.calling.exact import posterior_mode, genotype_likelihoods, genotype_posteriors, posterior_allele_frequencies, alternate_dosage_posteriors
+
+    _, P, seed, _ = job
+    r = Result()
+    payload = {"kind": "job", "job": job}
+    hs = [(0, 0), (0, 1), (1, 0), (1, 1)]
+    haps = np.array(hs)
+    H = 4
+    e = [0.01, 0.02, 0.005][seed % 3]
+    truths = [g for g in ref.multisets(range(H), P) if len(set(g)) >= 2][:: 2 if P > 4 else 1]
+    for truth in truths:
+        for depth in (60, 700, 2500, 9000):
+            reads, counts = [], []
+            for a in sorted(set(truth)):
+                reads.append([[1 - e if k == x else (e if k < 2 else 0.0) for k in range(3)] for x in hs[a]])
+                counts.append(truth.count(a) * depth // P)
+            R = np.array(reads, float)
+            C = np.array(counts)
+            for fname, fr in (("none", None), ("skew", [0.4, 0.3, 0.2, 0.1])):
+                for F in (0.0, 0.2):
+                    gens, post, llks = refpost(hs, P, fr, F, reads, counts)
+                    afp, aop = functionals(gens, post, H, P)
+                    pmax = max(post.values())
+                    farr = None if fr is None else np.array(fr)
+                    tag = "deep|P=%d|truth=%s|depth=%d|freq=%s|F=%g" % (P, truth, depth, fname, F)
+                    r.evaluations += 1
+                    r.nontrivial += 1
+                    res = posterior_mode(R, P, haps, C, F, farr, True, True, True)
+                    gt = tuple(int(x) for x in res[0])
+                    gpm, spm = float(res[2]), float(res[3])
+                    fq, oc = np.asarray(res[-2], float), np.asarray(res[-1], float)
+                    bad = []
+                    if gt not in post or post[gt] < pmax * (1 - 1e-9):
+                        bad.append("GT %r is not the posterior maximiser" % (gt,))
+                    else:
+                        sup = sum(v for g, v in post.items() if set(g) == set(gt))
+                        if not (abs(gpm - post[gt]) <= 1e-9) or not (abs(spm - sup) <= 1e-9) or not (gpm <= spm + 1e-12 <= 1 + 2e-12):
+                            bad.append("GPM %.12g / SPM %.12g, reference %.12g / %.12g" % (gpm, spm, post[gt], sup))
+                    if not np.allclose(fq, afp, rtol=0, atol=1e-9) or not np.allclose(oc, aop, rtol=0, atol=1e-9) or not (abs(fq.sum() - 1) <= 1e-9):
+                        bad.append("AFP %r / AOP %r, reference %r / %r" % (fq.tolist(), oc.tolist(), afp, aop))
+                    for b in bad:
+                        r.violation("deep-stream|P=%d|freq=%s|F=%g" % (P, fname, F), "%s (%s)" % (b, tag), payload)
+                    # full-array path (float32 likelihoods): same call, posterior within single-precision rounding of the log-likelihoods
+                    l32 = genotype_likelihoods(R, P, haps, C)
+                    gp = np.asarray(genotype_posteriors(l32, P, H, F, farr), float)
+                    order = sorted(gens, key=lambda g: tuple(reversed(g)))
+                    maxl = max(abs(v) for v in llks.values() if v > -math.inf)
+                    tol = 8 * 2.0 ** -23 * maxl + 1e-6
+                    want = np.array([post[g] for g in order])
+                    if len(gp) != len(order) or not (abs(gp.sum() - 1) <= 1e-6) or np.abs(gp - want).max() > tol:
+                        r.violation("deep-array|P=%d|freq=%s|F=%g" % (P, fname, F), "full-array posterior differs from the reference by %.3g (allowed %.3g), sum %.9g (%s)" % (
+                            np.abs(gp - want).max() if len(gp) == len(order) else -1, tol, gp.sum(), tag), payload)
+                    else:
+                        top = order[int(np.argmax(gp))]
+                        _, sp = alternate_dosage_posteriors(np.array(top), gp)
+                        f2, c2, o2 = posterior_allele_frequencies(gp, P, H)
+                        if not (float(np.sum(sp)) <= 1 + 1e-6) or not (abs(float(np.sum(f2)) - 1) <= 1e-6):
+                            r.violation("deep-array-functionals|P=%d" % P, "support probability %.9g, AFP sum %.9g (%s)" % (float(np.sum(sp)), float(np.sum(f2)), tag), payload)
+                    r.outcome((tag, gt))
+    r.sample({"deep_samples": "ploidy %d, depths 60..9000 reads at error %g" % (P, e), "truth_genotypes": len(truths)}, cap=1)
+    return r
 
 
 def job_cliflow(job):
@@ -179,16 +247,20 @@ def job_big(job):
 
 
 def refpost(haps, P, freqs, F, reads_ref, counts):
+    """reference posterior, normalised in log space (deep samples have likelihoods far below the smallest double)"""
     H = len(haps)
     fr = [1.0 / H] * H if freqs is None else freqs
     gens = ref.multisets(range(H), P)
-    w = {}
+    lj, llks = {}, {}
     for g in gens:
         pr = ref.dm_prior(g, fr, F)
         l = ref.llk(reads_ref, counts, [haps[a] for a in g])
-        w[g] = pr * math.exp(l) if pr > 0 and l > -math.inf else 0.0
+        llks[g] = l
+        lj[g] = math.log(pr) + l if pr > 0 and l > -math.inf else -math.inf
+    m = max(lj.values())
+    w = {g: (math.exp(v - m) if v > -math.inf else 0.0) for g, v in lj.items()}
     z = sum(w.values())
-    return gens, {g: v / z for g, v in w.items()}, {g: ref.llk(reads_ref, counts, [haps[a] for a in g]) for g in gens}
+    return gens, {g: v / z for g, v in w.items()}, llks
 
 
 def functionals(gens, post, H, P):
